@@ -488,6 +488,41 @@ def query(R, P):
     R.check(len(mc) == 1 and "substr.ptr" in argstr(g, mc[0].node, 0), "QUERY", "next_param:first-equals", where(g, mc[0]) if mc else g.name, "key and value are split at the first '=' of the pair")
 
 
+def number_buffers(R, P):
+    """BUILDER/port text: a number printed with snprintf into a local array is never truncated: the array holds the longest
+    decimal rendering of the argument's type (10 digits for a 32-bit unsigned, 20 for 64-bit) plus the format's literal
+    characters plus the terminator."""
+    import re
+    f = P.fn("aws_uri_init_from_builder_options")
+    if not R.require(f is not None, "aws_uri_init_from_builder_options not found"):
+        return
+    n = 0
+    for e in f.calls({"snprintf"}):
+        a = e.node["a"]
+        dst = RU.uncast(f, a[0])
+        while dst is not None and dst["k"] in ("decay", "cast"):
+            dst = f.d(dst["a"][0])
+        fm = RU.uncast(f, a[2]) if len(a) > 2 else None
+        while fm is not None and fm["k"] in ("decay", "cast"):
+            fm = f.d(fm["a"][0])
+        if dst is None or dst["k"] != "var" or fm is None or fm["k"] != "str":
+            continue
+        size = f.unit.types[dst["t"]].get("arr")
+        convs = re.findall(r"%[-0-9.]*(l{0,2}|z|j|h{0,2})([duxX])", fm["v"])
+        lit = len(re.sub(r"%[-0-9.]*(?:l{0,2}|z|j|h{0,2})[duxXs]", "", fm["v"]))
+        need, okt = lit + 1, len(convs) == len(a) - 3
+        for (mod, cv), arg in zip(convs, a[3:]):
+            t = f.unit.types[f.d(arg)["t"]] if f.d(arg) is not None and "t" in f.d(arg) else {}
+            w = t.get("w") or 32
+            need += len(str(2 ** w - 1)) if cv in ("u", "d") else (w // 4)
+            if cv == "d":
+                need += 1
+        n += 1
+        R.check(okt and size is not None and size >= need, "BUILDER", "number-text-fits:%s" % dst["n"], where(f, e), "%s[%s] holds the longest rendering (%d bytes with terminator)" % (dst["n"], size, need),
+                "the %d-byte array `%s` is too small for the longest value printed into it with \"%s\" (%d bytes with the terminator): snprintf truncates it - a 10-digit port is written without its last digit and the URI re-parses to another port" % (size or 0, dst["n"], fm["v"], need))
+    R.require(n >= 1, "builder: no number formatted into a local array (confirmed: the port)")
+
+
 def iterator_state(R, P):
     """QUERY/reassembly: the iterator keeps its position in the pair it yielded last.  Inductive argument over calls (NUM):
     (yield)   every `true` return leaves  key.ptr = start of the pair just split,  value.ptr + value.len = its end,
@@ -688,12 +723,14 @@ def analyse(ctx, replace=None, only=None):
     builder(R, P)
     alphabet(R, P)
     query(R, P)
+    number_buffers(R, P)
     iterator_state(R, P)
     decoder_total(R, P)
     port_range(R, P)
 
 
 MUTANTS = [
+    {"name": "port-buffer-without-terminator-slot", "file": FILE, "expect": "BUILDER", "old": "#define PORT_BUFFER_SIZE 11", "new": "#define PORT_BUFFER_SIZE 10"},
     {"name": "iterator-resumes-by-lengths", "file": FILE, "expect": "QUERY", "old": "        substr.len = (param->value.ptr - param->key.ptr) + param->value.len;", "new": "        substr.len = param->key.len + 1 + param->value.len;"},
     {"name": "decoder-rejects-zero-byte", "file": FILE, "expect": "ENCODER", "old": "            if (AWS_UNLIKELY(aws_byte_cursor_read_hex_u8(&advancing, &c) == false)) {", "new": "            aws_byte_cursor_read_hex_u8(&advancing, &c);\n            if (AWS_UNLIKELY(!c)) {"},
     {"name": "port-max-refused", "file": FILE, "expect": "VIEW", "old": "            if (port_u64 > UINT32_MAX) {", "new": "            if (port_u64 >= UINT32_MAX) {"},
